@@ -128,6 +128,13 @@ class Engine(object):
         if modname in ('nx', 'networkx'):
             if attr in EXC_PARENTS:
                 return VExcClass(attr)
+        if modname in ('nx', 'networkx') and attr == 'DiGraph':
+            # a fresh plain networkx DiGraph: an opaque object (only used by code that is outside the contracts)
+            def mk(i, a, k, f):
+                if a or k:
+                    raise Undecided('nx.DiGraph with arguments')
+                return VOpaque(fresh('nxdg', Obj), 'nxdigraph')
+            return VCallable(mk, 'nx.DiGraph')
         if modname == 'copy' and attr == 'deepcopy':
             return VCallable(b_deepcopy, 'deepcopy')
         if modname == 'copy' and attr == 'copy':
@@ -302,6 +309,8 @@ def b_type(interp, argv, kwv, fr):
            'none': 'NoneType', 'real': 'float', 'interval': 'list', 'timeline': 'list', 'seq': 'list'}
     if v.kind == 'graph':
         return VType(v.g.cls)
+    if v.kind == 'node':
+        return VType('node-id-type')          # the (unknown) class of a node id
     if v.kind not in pyk:
         raise Undecided('type() of %s' % v.kind)
     return VType(pyk[v.kind])
